@@ -205,6 +205,96 @@ End Enc.
 Definition ev_dgrams (evs : list uev) : list dgram :=
   flat_map (fun ev => match ev with EvD (x :: d) => [x :: d] | _ => [] end) evs.
 
+(* ======================================================================================== *)
+(*  UDP -> tunnel, who owns batchBuf: the main loop and the 20 ms ticker goroutine as two     *)
+(*  Threads.v threads over the REAL buffer (a byte array that is overwritten in place),       *)
+(*  batchPos, batchMu and the tunnel.  One step = lock / take batchBuf[:batchPos] /           *)
+(*  tunnelConn.Write returns / unlock / "read one datagram and frame it" (under the lock).    *)
+(*  LateWrite = false: the code (flushLocked under batchMu: the slice handed to Write stays    *)
+(*  owned by the lock holder until Write has returned).  LateWrite = true: the variant that     *)
+(*  takes pending := batchBuf[:batchPos], resets batchPos, UNLOCKS and only then writes.         *)
+(* ======================================================================================== *)
+Record bsh := { b_buf : list byte;        (* batchBuf, as far as it has ever been written *)
+                b_pos : nat;              (* batchPos *)
+                b_lock : option nat;      (* batchMu: None | Some holder *)
+                b_out : list byte;        (* bytes the tunnel has consumed, in order *)
+                b_inq : list dgram;       (* datagrams the local side will still deliver *)
+                b_seen : list dgram }.    (* datagrams read so far, in arrival order *)
+Inductive bpc :=
+| BIdle | BHave                  (* outside / inside the critical section, nothing taken yet *)
+| BTaken (n : nat)               (* a Write of batchBuf[:n] is in flight *)
+| BUnlock | BFinal | BDone.
+
+(* copy(batchBuf[pos:], e): in place *)
+Definition store (pos : nat) (e : list byte) (buf : list byte) : list byte :=
+  firstn pos buf ++ e ++ skipn (pos + length e) buf.
+Definition enc_ne (d : dgram) : list byte := match d with [] => [] | _ => enc_dgram d end.
+
+Section Own.
+  Variable LateWrite : bool.
+  Variable BatchBuf : nat.
+
+  Definition bset (sh : bsh) buf pos lock out inq seen : bsh :=
+    {| b_buf := buf; b_pos := pos; b_lock := lock; b_out := out; b_inq := inq; b_seen := seen |}.
+
+  (* main loop, holding the lock, one datagram d: flush first if it does not fit; frame it at batchPos;
+     flush if more than half full *)
+  Definition frame_one (d : dgram) (sh : bsh) : bsh :=
+    match d with
+    | [] => bset sh (b_buf sh) (b_pos sh) (b_lock sh) (b_out sh) (tl (b_inq sh)) (b_seen sh ++ [d])
+    | _ =>
+      let '(out1, pos1) := if (BatchBuf <? b_pos sh + (2 + length d))%nat
+                           then (b_out sh ++ firstn (b_pos sh) (b_buf sh), 0%nat) else (b_out sh, b_pos sh) in
+      let buf2 := store pos1 (enc_dgram d) (b_buf sh) in
+      let pos2 := (pos1 + (2 + length d))%nat in
+      let '(out3, pos3) := if (BatchBuf / 2 <? pos2)%nat then (out1 ++ firstn pos2 buf2, 0%nat) else (out1, pos2) in
+      bset sh buf2 pos3 (b_lock sh) out3 (tl (b_inq sh)) (b_seen sh ++ [d])
+    end.
+
+  Definition main_own (pc : bpc) (sh : bsh) : bpc * bsh :=
+    match pc with
+    | BIdle => match b_lock sh with
+               | None => (BHave, bset sh (b_buf sh) (b_pos sh) (Some 0%nat) (b_out sh) (b_inq sh) (b_seen sh))
+               | Some _ => (BIdle, sh)          (* batchMu.Lock() blocks *)
+               end
+    | BHave => match b_inq sh with
+               | d :: _ => (BUnlock, frame_one d sh)
+               | [] => (* the local side ended: flushLocked() — the Write returns before the lock is released *)
+                 (BFinal, bset sh (b_buf sh) 0%nat (b_lock sh) (b_out sh ++ firstn (b_pos sh) (b_buf sh)) [] (b_seen sh))
+               end
+    | BUnlock => (BIdle, bset sh (b_buf sh) (b_pos sh) None (b_out sh) (b_inq sh) (b_seen sh))
+    | BFinal => (BDone, bset sh (b_buf sh) (b_pos sh) None (b_out sh) (b_inq sh) (b_seen sh))
+    | other => (other, sh)
+    end.
+
+  Definition tick_own (pc : bpc) (sh : bsh) : bpc * bsh :=
+    match pc with
+    | BIdle => match b_lock sh with
+               | None => (BHave, bset sh (b_buf sh) (b_pos sh) (Some 1%nat) (b_out sh) (b_inq sh) (b_seen sh))
+               | Some _ => (BIdle, sh)
+               end
+    | BHave => (* pending := batchBuf[:batchPos]  (a slice: it ALIASES batchBuf) *)
+      if LateWrite
+      then (BTaken (b_pos sh), bset sh (b_buf sh) 0%nat None (b_out sh) (b_inq sh) (b_seen sh))   (* batchPos = 0; Unlock() *)
+      else (BTaken (b_pos sh), sh)
+    | BTaken n => (* tunnelConn.Write(pending) returns: the tunnel has consumed what the slice holds NOW *)
+      if LateWrite
+      then (BIdle, bset sh (b_buf sh) (b_pos sh) (b_lock sh) (b_out sh ++ firstn n (b_buf sh)) (b_inq sh) (b_seen sh))
+      else (BUnlock, bset sh (b_buf sh) 0%nat (b_lock sh) (b_out sh ++ firstn n (b_buf sh)) (b_inq sh) (b_seen sh))
+    | BUnlock => (BIdle, bset sh (b_buf sh) (b_pos sh) None (b_out sh) (b_inq sh) (b_seen sh))
+    | other => (other, sh)
+    end.
+
+  Definition own_step (lo : nat * bpc) (sh : bsh) : (nat * bpc) * bsh :=
+    match fst lo with
+    | 0%nat => let '(pc', sh') := main_own (snd lo) sh in ((0%nat, pc'), sh')
+    | r => let '(pc', sh') := tick_own (snd lo) sh in ((r, pc'), sh')
+    end.
+End Own.
+Definition own_init (ds : list dgram) : st bsh (nat * bpc) :=
+  ({| b_buf := []; b_pos := 0; b_lock := None; b_out := []; b_inq := ds; b_seen := [] |},
+   [(0%nat, BIdle); (1%nat, BIdle)]).
+
 (* ---- specification vocabulary for "the stream is cut at byte offset cut" ---- *)
 (* datagrams whose record lies completely before the cut / the bytes of the record the cut falls into *)
 Fixpoint complete_before (cut : nat) (ds : list dgram) : list dgram :=
